@@ -42,6 +42,44 @@ claim("C26",
       "Oracle = SQL frame definition in i128. Trusted: Kani/CBMC. Partition length bounded by 8 (the arithmetic only clamps against ps/pe).",
       "DESIGN.md §4/C26")
 
+claim("C02",
+      "Bounded model checking of the constant folder's real scalar evaluators (eval_int64, eval_bool, eval_binary): for all i64 "
+      "operands, +,- are exact or not folded (never wrapped), comparisons are the integer order, / and % never panic (i64::MIN / -1 "
+      "included) and are not folded on a zero divisor; a NULL operand or operands of different kinds are never folded to a value; "
+      "booleans fold by two-valued AND/OR/=/<>. Partial: the statement's row-level 3VL (NULL OR TRUE keeps the row) is evaluated by "
+      "Arrow kernels and fold_expr's AND/OR rewrites walk boxed Expr trees -- both outside CBMC's reach (DESIGN §1), so they are NOT decided.",
+      "Oracle = SQL scalar semantics in i128 / two-valued logic. Thorough tier adds exactness of *, /, % on reduced widths. LIKE is under C36.",
+      "DESIGN.md §4/C02")
+claim("C11",
+      "Bounded model checking of the decidable kernels of split enumeration: target_split_bytes for ALL table sizes (u64) at node counts "
+      "{0,1,2,3,5,8,16,64} (clamps, one-split-per-node floor, exact ideal between clamps, no overflow / division by zero), and the digest: "
+      "independent of the mount path, and changed by any single-byte change of a footer-derived field. Partial: the coverage statement "
+      "itself (enumerate_parquet: metadata cache + two sorts over Vec<Split> with Strings) did not leave symbolic execution and is NOT claimed.",
+      "Oracle stated with multiplications only (division by a symbolic divisor did not finish). Multi-byte digest collisions are not excluded (64-bit FNV).",
+      "DESIGN.md §4/C11")
+claim("C21",
+      "Bounded model checking of the morsel path's accumulator algebra (AccumulatorState new/update/update_i64/merge/finalize): COUNT and SUM "
+      "over 3 inputs each NULL or BIGINT, any morsel boundary, typed and ScalarValue paths -- COUNT counts non-NULL inputs, SUM is NULL iff "
+      "none and exact otherwise; slot_has_data never drops the global slot or a slot with a non-NULL key; raw group keys are injective on "
+      "integers. One KNOWN FINDING is pinned by its own harness: the raw key of a NULL grouping value equals that of -1. Partial: hash, "
+      "vectorized, spilled paths, COUNT(DISTINCT) and MIN/MAX/AVG (thorough tier only) are Arrow- or clone-bound.",
+      "Oracle = SQL aggregate definitions in integers; |x| < 2^40 so SUM cannot overflow. The finding is confirmed end to end (GROUP BY over Parquet: e2e_c21_null_group_vs_minus_one).",
+      "DESIGN.md §4/C21")
+claim("C38",
+      "Bounded model checking of the real slice kernels dot and l2_sq in the exact-integer regime: dimension 9 (full 8-lane chunk + "
+      "remainder) with components in [-2,2], dimension 3 with components in [-15,15]: the result equals the integer formula. Thorough: "
+      "dimension 17 (two chunks, lane accumulators add) and norm. Partial: general floats (tolerance), NULL rows, slicing and dimension "
+      "mismatch (Arrow FixedSizeListArray) are outside.",
+      "Small component ranges because float-vs-integer multiplier equivalence is SAT-hard (measured). Trusted: CBMC's IEEE-754 encoding.",
+      "DESIGN.md §4/C38")
+claim("C41",
+      "Bounded model checking of the real dechunk on semi-concrete wire images (concrete framing shape, symbolic payload bytes / digits): "
+      "round trip of every 3-byte body at every split point, chunk extensions ignored, hex sizes in either case, every truncation of a "
+      "declared chunk rejected, chunk data not followed by CRLF rejected, 16- and 17-digit sizes (>= 2^60, >= 2^64) rejected without "
+      "overflow or panic.",
+      "Reference = a 10-line chunked encoder in the harness. Bodies <= 3 bytes, <= 2 chunks; http_get's socket handling is outside (covered once by native e2e confirmers).",
+      "DESIGN.md §4/C41")
+
 NOT_APPLICABLE = {
     "C01": "whole pipeline parse->bind->optimise->plan->execute over Arrow batches with DuckDB as oracle: async, Arrow kernels, HashMap-heavy binder; no bounded kernel carries the claim (DESIGN §5).",
     "C03": "every rule rewrites LogicalPlan trees keyed by HashMap<String,_>/string schemas; HashMap<String,_> and recursive functions over Expr are out of CBMC's reach even at depth 1 (measured, DESIGN §1/§5).",
@@ -77,17 +115,12 @@ NOT_APPLICABLE = {
 
 # properties whose harnesses exist but are not yet registered (registered only once conclusive on the unchanged tree)
 PENDING = {
-    "C02": "pending registration: harnesses for the folder's scalar evaluators exist under harness/C02 and are being validated; not claimed until conclusive on the unchanged tree within the tier cap (DESIGN §3).",
     "C06": "pending registration: harness/C06 (one chunk step, 1 row) is being validated.",
-    "C11": "pending: mode-S harness for enumerate_parquet not yet built; the first probe did not leave symbolic execution in 10 min (DESIGN §1).",
     "C12": "pending: assign_lpt with std's sort over symbolic indices did not finish symbolic execution for 3 splits x 2 nodes in 300 s; a tractable bound is still being searched.",
     "C16": "pending registration: harness/C16 (semi-concrete parse_response) is being validated.",
-    "C21": "pending registration: harness/C21 (accumulator algebra, raw keys) is being validated.",
     "C25": "pending registration: harness/C25 (LimitState::take_from step) is being validated.",
     "C29": "pending: panic-freedom re-runs of the kernels above are registered after those are.",
     "C36": "pending registration: LIKE harness being validated.",
-    "C38": "pending registration: harness/C38 (dot/l2_sq exact-integer regime) is being validated.",
-    "C41": "pending registration: harness/C41 (dechunk) is being validated.",
     "C42": "pending: workers_for is decided; parse_cpulist did not finish within the cap even for 3 bytes; registration waits for a tractable bound.",
 }
 
